@@ -22,7 +22,9 @@ CONSTANTS
   WsLens,     \* set of lengths of whitespace-only lines (in characters of Unit[1]); {} = none
   Blank,      \* TRUE: empty lines allowed
   Suffix,     \* text appended to every code line (e.g. a multi-byte character), <<>> for none
-  PastTo, FutureTo  \* `to` values for T / F
+  PastTo, FutureTo, \* `to` values for T / F
+  Tos,        \* `to` values for the kinds "T1", "T2", ... (histories): sequence
+  Names       \* marker names for the kinds "M1", "M2", ... (histories): sequence
 
 VARIABLES lines,   \* sequence of [k |-> "code"|"blank"|"ws"|"open"|"close", ind, n, kind]
           stack,   \* open element kinds, innermost last: <<kind, ind>>
@@ -55,12 +57,17 @@ Feasible == Len(lines) + Len(stack) <= L
 
 Q == <<39>>
 Str(s) == s
-TagName(kd) == IF kd[1] \in {"R", "P", "S"} THEN RM ELSE IF kd[1] \in {"T", "F"} THEN TL ELSE <<120, 120>>   \* xx
+TKinds == {"T1", "T2", "T3", "T4"}
+MKinds == {"M1", "M2", "M3", "M4"}
+KIdx(k) == IF k \in {"T1", "M1"} THEN 1 ELSE IF k \in {"T2", "M2"} THEN 2 ELSE IF k \in {"T3", "M3"} THEN 3 ELSE 4
+TagName(kd) == IF kd[1] \in {"R", "P", "S"} \cup MKinds THEN RM ELSE IF kd[1] \in {"T", "F"} \cup TKinds THEN TL ELSE <<120, 120>>   \* xx
 OpenTag(kd, n) ==
   DS \o TagName(kd)
      \o (IF kd[1] \in {"R", "S", "U"} THEN <<32, 110, 97, 109, 101, 61>> \o Q \o <<97>> \o Q                 \* name='a'
          ELSE IF kd[1] = "P" THEN <<32, 110, 97, 109, 101, 61>> \o Q \o <<98>> \o Q                        \* name='b'
          ELSE IF kd[1] = "T" THEN <<32, 116, 111, 61>> \o Q \o PastTo \o Q
+         ELSE IF kd[1] \in TKinds THEN <<32, 116, 111, 61>> \o Q \o Tos[KIdx(kd[1])] \o Q
+         ELSE IF kd[1] \in MKinds THEN <<32, 110, 97, 109, 101, 61>> \o Q \o Names[KIdx(kd[1])] \o Q
          ELSE <<32, 116, 111, 61>> \o Q \o FutureTo \o Q)
      \o (IF kd[1] = "S" THEN <<32, 115, 107, 105, 112>> ELSE <<>>)
      \o (IF kd[2] THEN <<32, 117, 110, 119, 114, 97, 112, 45, 98, 108, 111, 99, 107>> ELSE <<>>)
